@@ -49,6 +49,9 @@ class Engine:
         self.skip_callee = skip_callee or (lambda callee: False)
         self.clean_callee = clean_callee or (lambda callee, term: False)
         self.seed_hooks = []
+        self.model_channels = False
+        self.channels = defaultdict(set)   # message type -> {label}: values sent through tokio mpsc / oneshot channels
+        self.term_sinks = None   # optional fn(fid, B, bi, term) -> [(kind, sink name, [operands])] for non-call terminators / statements
 
     # ------------------------------------------------------------------ basics
     def ws(self, fid):
@@ -157,6 +160,18 @@ class Engine:
                 t = blk["term"]
                 if t["k"] == "call":
                     changed |= self.call(fid, B, bi, t)
+                if self.term_sinks is not None:
+                    for (kind, name, operands) in self.term_sinks(fid, B, bi, t):
+                        for o in operands:
+                            for (res, label, src) in self.read_op(fid, o):
+                                desc = {"fn": fid, "sink": name, "kind": kind, "where": q.where(B, bi), "line": B.line(bi)}
+                                if is_sym(label):
+                                    skey = (fid, name, kind)
+                                    if (label, skey) not in self.cond_sinks[fid]:
+                                        self.cond_sinks[fid][(label, skey)] = desc
+                                        self._summary_changed(fid)
+                                else:
+                                    self._finding(desc, label, src, via=None)
 
     # ------------------------------------------------------------------ transfer
     def assign(self, fid, B, bi, s):
@@ -181,6 +196,14 @@ class Engine:
                 fld = names[i] if names and i < len(names) else str(i)
                 for (res, label, src) in self.read_op(fid, o):
                     ch |= self.add(fid, lhs["l"], lp + pre + (fld,) + res, label, ("agg", src, line))
+        elif k == "un":
+            # PtrMetadata (slice length), Neg, Not: derived from the operand
+            for (res, label, src) in self.read_op(fid, rv["a"]):
+                ch |= self.add(fid, lhs["l"], lp, label, ("un:" + rv["op"], src, line))
+        elif k == "bin" and rv["op"] not in ("Eq", "Ne", "Lt", "Le", "Gt", "Ge", "Cmp"):
+            for o in (rv["a"], rv["b"]):
+                for (res, label, src) in self.read_op(fid, o):
+                    ch |= self.add(fid, lhs["l"], lp, label, ("arith:" + rv["op"], src, line))
         return ch
 
     def _is_enum(self, adt):
@@ -209,9 +232,18 @@ class Engine:
                     if (L, skey) not in self.cond_sinks[fid]:
                         self.cond_sinks[fid][(L, skey)] = dict(desc, via=[fid.replace("azure_proxy_agent::", "")] + desc.get("via", []))
                         self._summary_changed(fid)
+                elif desc["kind"].startswith("channel:"):
+                    self._channel_put(desc["sink"], L, src, line)
                 else:
                     self._finding(desc, L, src, via=fid)
         return ch
+
+    def _channel_put(self, ty, label, src, line):
+        if label not in self.channels[ty]:
+            self.channels[ty].add(label)
+            self.why.setdefault(("<channel>", 0, (ty,), label), ("sent through channel<%s>" % ty.rsplit("::", 1)[-1], src, line))
+            for f2 in self.F.fns:
+                self._enqueue(f2)
 
     def _bind_args(self, argt, first_param=1):
         binding = defaultdict(list)
@@ -250,8 +282,14 @@ class Engine:
 
         if any_taint:
             sk = self.sink_fn(fid, callee, t)
+            only = None
+            keep_going = False
+            if isinstance(sk, tuple):
+                sk, only, keep_going = sk
             if sk:
                 for i, at in enumerate(argt):
+                    if only is not None and i not in only:
+                        continue
                     for (res, label, src) in at:
                         desc = {"fn": fid, "sink": base, "kind": sk, "where": q.where(B, bi), "line": B.line(bi)}
                         if is_sym(label):
@@ -261,7 +299,32 @@ class Engine:
                                 self._summary_changed(fid)
                         else:
                             self._finding(desc, label, src, via=None)
-                return ch
+                if not keep_going:
+                    return ch
+
+        # tokio channels: what is sent with type T arrives (whole-value taint) wherever a T is received
+        if self.model_channels and base in ("tokio::sync::mpsc::Sender::send", "tokio::sync::mpsc::UnboundedSender::send", "tokio::sync::oneshot::Sender::send",
+                    "tokio::sync::mpsc::Sender::try_send", "tokio::sync::mpsc::Sender::blocking_send"):
+            ty = _first_ty(t)
+            if ty is not None and len(argt) > 1:
+                for (res, label, src) in argt[1]:
+                    if is_sym(label):
+                        skey = ("<channel>", ty, "channel")
+                        if (label, skey) not in self.cond_sinks[fid]:
+                            self.cond_sinks[fid][(label, skey)] = {"fn": fid, "sink": ty, "kind": "channel:" + ty, "where": q.where(B, bi), "line": line}
+                            self._summary_changed(fid)
+                    else:
+                        self._channel_put(ty, label, src, line)
+        if self.model_channels and base in ("tokio::sync::mpsc::Receiver::recv", "tokio::sync::mpsc::UnboundedReceiver::recv", "tokio::sync::mpsc::Receiver::try_recv"):
+            ty = _first_ty(t)
+            for label in self.channels.get(ty, ()):
+                ch |= self.add(fid, dest["l"], dp, label, ("received from channel", ("<channel>", 0, (ty,), label), line))
+        if self.model_channels and w == mir.POLL and not (r and self.ws(r)):
+            sty = (t["f"].get("fnargs") or [{}])[0].get("ty", "")
+            if sty.startswith("tokio::sync::oneshot::Receiver<"):
+                ty = sty[len("tokio::sync::oneshot::Receiver<"):-1]
+                for label in self.channels.get(ty, ()):
+                    ch |= self.add(fid, dest["l"], dp + ("@Ready", "0"), label, ("received from oneshot", ("<channel>", 0, (ty,), label), line))
 
         if w == mir.POLL:
             if r and self.ws(r):
@@ -334,6 +397,8 @@ class Engine:
             for (res, label, src) in argt[0]:
                 if res[:1] == ("@Ok",):
                     ch |= self.add(fid, dest["l"], dp + res, label, ("map_err", src, line))
+                elif not res:
+                    ch |= self.add(fid, dest["l"], dp + ("@Ok", "0"), label, ("map_err", src, line))
             return ch
         if m(SAME_SHAPE):
             for (res, label, src) in argt[0]:
@@ -451,6 +516,13 @@ class Engine:
             nxt = why[1]
             cur = nxt if isinstance(nxt, tuple) and len(nxt) == 4 else None
         return out
+
+
+def _first_ty(term):
+    for g in term["f"].get("fnargs", []):
+        if "ty" in g:
+            return g["ty"]
+    return None
 
 
 def _short(callee):
